@@ -45,6 +45,19 @@ def label_after_last_branch(src: str) -> Optional[str]:
     return None
 
 
+PSEUDO_ZERO = "AAAAAAAAAAAAAAAAAAAAAAAAAAAAAAAAAAAAAAAAAAAAEVAL4QAJS7JHB4"
+OTHER_ADDR = "AAAAAAAAAAAAAAAAAAAAAAAAAAAAAAAAAAAAAAAAAAAAAAAAAAETWN2UKU"
+
+
+def rename_pseudo_zero_address(src: str) -> Optional[str]:
+    """The literal tealer takes for the zero address is an ordinary non-zero address; renaming it to
+    another non-zero address that the program does not name gives the same program up to the name of
+    that constant."""
+    if PSEUDO_ZERO not in src or OTHER_ADDR in src:
+        return None
+    return src.replace(PSEUDO_ZERO, OTHER_ADDR)
+
+
 def drop_appid_oncompletion_checks(src: str) -> Optional[str]:
     """Not semantics-preserving in general; see known finding KF-C07-appid-oc: used only as a feature test."""
     return None
@@ -53,6 +66,7 @@ def drop_appid_oncompletion_checks(src: str) -> Optional[str]:
 NORMALISERS: Dict[str, Callable[[str], Optional[str]]] = {
     "mirror_const_left_gs_gi": mirror_const_left_gs_gi,
     "label_after_last_branch": label_after_last_branch,
+    "rename_pseudo_zero_address": rename_pseudo_zero_address,
 }
 
 
@@ -106,7 +120,17 @@ def close_detector_silent_after_oc_appid_check(finding: dict, src: str) -> bool:
     return _path_reads_oc_appid(finding, src)
 
 
+def hinted_early_exit_in_callee(finding: dict, src: str) -> bool:
+    return (finding.get("extra") or {}).get("known_hint") == "KF-C12-early-exit-in-callee"
+
+
+def hinted_path_through_loop(finding: dict, src: str) -> bool:
+    return (finding.get("extra") or {}).get("known_hint") == "KF-C12-path-through-loop"
+
+
 PREDICATES = {
+    "hinted_early_exit_in_callee": hinted_early_exit_in_callee,
+    "hinted_path_through_loop": hinted_path_through_loop,
     "close_detector_silent_after_oc_appid_check": close_detector_silent_after_oc_appid_check,
     "nonappl_kind_dropped_by_oc_appid_check": nonappl_kind_dropped_by_oc_appid_check,
 }
